@@ -53,6 +53,13 @@ func H_Paths() {
 	var mt util.MerkleTreeI = &util.MerkleTree{}
 	var p *util.MTPath
 	var root string
+	// the tree object may have been used before for another (larger or smaller) leaf list
+	switch vp.Choose("reused", vp.Param("reuse", 3)) {
+	case 1:
+		mt.ComputeTree(mkLeaves(n+1, 0))
+	case 2:
+		mt.ComputeTree(mkLeaves(2*n+1, 0))
+	}
 	if vp.NoPanic("C19.nopanic", func() {
 		mt.ComputeTree(leaves)
 		root = mt.GetRoot()
